@@ -110,15 +110,19 @@ def kernel_cases(tier, seed):
     t64 = [(0,) * 64] + [rt(64) for _ in range(6)]
     S2 = alphabet({0: 1, 1: 2, 3: 1, 8: 1})
     S8 = alphabet({0: 1, 1: 2, 5: 1, 16: 1})
+    deep4 = fixed4 + rng.sample([t for t in all4 if t not in fixed4], 3)
     return [
-        dict(M=4, d=1, alpha=A4, tabs=None, steptabs=all4, bs=[1, 2], maxdraws=3),
+        dict(M=4, d=1, alpha=A4, tabs=None, steptabs=all4, bs=[1, 2], maxdraws=2),
+        dict(M=4, d=1, alpha=A4, tabs=deep4, steptabs=deep4, bs=[1, 2], maxdraws=3),
         dict(M=8, d=1, alpha=A8full, tabs=t8, steptabs=t8[1:4], bs=[1, 2], maxdraws=2),
-        dict(M=4, d=2, alpha=S2, tabs=t16, steptabs=t16[1:3], bs=[1, 2], maxdraws=2),
+        dict(M=4, d=2, alpha=S2, tabs=t16, steptabs=t16[1:2], bs=[1, 2], maxdraws=2),
         dict(M=8, d=2, alpha=S8, tabs=t64, steptabs=[], bs=[2], maxdraws=1),
     ]
 
 
 def run_kernel(cases, rule, hm, invs, dump=True, steps=True, workers=6):
+    if len(cases) > 4 and workers > 2:
+        workers = 8  # thorough tier
     cs = [dict(c, steptabs=c["steptabs"] if steps else []) for c in cases]
     mc = "---- MODULE KernelMC ----\nEXTENDS Kernel\nCasesDef == <<%s>>\n====\n" % ",\n  ".join(tla_case(c) for c in cs)
     cfg = KCFG.format(rule=rule, hm=hm, invs="\n".join("INVARIANT " + i for i in invs))
@@ -508,30 +512,29 @@ def replay_tpcn(ck, np, mcmc, modes_mod, modes, M, res):
                 np.random.gamma, np.random.randn = o_gamma, o_randn
             cnt["propose"] += 1
             want = [Fraction(f, PD * 2 * M) for f in s["fol"]]
-            if bad is None:
+            bad_rule = bad is not None or rec["z"] != len(zq)   # the number of innovations drawn identifies the hard-wall rule
+            if bad is None and not bad_rule:
                 if len(rec["g"]) != 1:
                     bad = f"numpy.random.gamma called {len(rec['g'])} times"
                 elif rec["g"][0][0] != s["shape2"] / 2.0:
                     bad = f"gamma shape {rec['g'][0][0]!r}, specification (d+nu)/2 = {s['shape2'] / 2.0!r}"
                 elif abs(rec["g"][0][1] - s["scale"][0] / s["scale"][1]) > 1e-12 * s["scale"][0] / s["scale"][1]:
                     bad = f"gamma scale {rec['g'][0][1]!r}, specification 2/(nu+delta) = {s['scale'][0]}/{s['scale'][1]}"
-                elif rec["z"] != len(zq):
-                    bad = f"{rec['z']} innovation vectors consumed, specification {len(zq)}"
                 elif got.shape != (d,) or any(abs(float(g) - float(w)) > 1e-12 for g, w in zip(got, want)):
                     bad = f"proposal {got.tolist()!r}, specification {[str(w) for w in want]}"
+            elif bad is None:
+                bad = f"{rec['z']} innovation vectors consumed, specification {len(zq)}"
             payload = {"mode": mode, "kinds": list(kinds), "state": s, "M": M}
-            if s["pc"] == "outside":          # discriminates the intended rule
-                cnt["outside_probes"] += 1
-                tally["int_bad" if bad else "int_ok"] += 1
-                if bad:
-                    deferred.append(("int", bad, payload))
-                continue
-            if len(s["zs"]) > 1:              # discriminates the code-shaped rule
-                cnt["redraws"] += 1
-                tally["impl_bad" if bad else "impl_ok"] += 1
-                if bad:
-                    deferred.append(("impl", bad, payload))
-                continue
+            if s["pc"] == "outside" or len(s["zs"]) > 1:   # behaviours that discriminate the two hard-wall rules
+                which = "int" if s["pc"] == "outside" else "impl"
+                if s["pc"] == "outside":
+                    cnt["outside_probes"] += 1
+                else:
+                    cnt["redraws"] += 1
+                tally[which + ("_bad" if bad_rule else "_ok")] += 1
+                if bad_rule:
+                    deferred.append((which, bad, payload))
+                    continue
             if any(kd != "hard" for kd in kinds):
                 cnt["folded"] += 1
             if bad:
